@@ -189,12 +189,12 @@ func (f *FlakyWrapper) Encrypt(ctx context.Context, in []byte, opt ...wrapping.O
 
 // Server is a server world
 type Server struct {
-	Ctx     context.Context
-	Cfg     ServerCfg
-	Inner   nodeenrollment.Storage
-	Store   nodeenrollment.Storage
-	SW      wrapping.Wrapper
-	RW      wrapping.Wrapper
+	Ctx   context.Context
+	Cfg   ServerCfg
+	Inner nodeenrollment.Storage
+	Store nodeenrollment.Storage
+	SW    wrapping.Wrapper
+	RW    wrapping.Wrapper
 	// NodeRW is the registration wrapper nodes were provisioned with when it is not RW itself
 	NodeRW  wrapping.Wrapper
 	cleanup func()
